@@ -87,12 +87,15 @@ def replay(case) -> dict:
     kw = dict(max_shifts=max_shift_px * scale, alignment_model=M, rotations=rots)
     feats = pl.DataFrame({"g": [0]})
     mole = Molecules(p_in[None, :], Rotation.concatenate([R_in]), features=feats)
-    if kind in ("single", "multi"):
+    if kind in ("single", "multi", "stack"):
         loader = SubtomogramLoader(tomo, mole, order=cfg["order"], scale=scale, output_shape=(BOX,) * 3)
         if kind == "single":
             out = engine.api(loader.align, tmpls[0], **kw).molecules
         else:
-            out = engine.api(loader.align_multi_templates, tmpls, **kw).molecules
+            if kind == "multi":
+                out = engine.api(loader.align_multi_templates, tmpls, **kw).molecules
+            else:  # a list of templates given to align() itself
+                out = engine.api(loader.align, tmpls if cfg["j"] == 0 else np.stack(tmpls, axis=0), **kw).molecules
             if int(out.features["labels"][0]) != cfg["j"]:
                 fails.append(dict(desc, clause="Label", observed=int(out.features["labels"][0]), expected=cfg["j"]))
     elif kind == "batch":
@@ -148,7 +151,7 @@ def replay(case) -> dict:
 
 def _stratum(c):
     g = c["cfg"]
-    return (g["kind"], g["model"], g["order"], g["s2"], g["Rstar"]["d"] == 1, json.dumps(g["q"]), json.dumps(g["m"]))
+    return (g["kind"], g["model"], g["order"], g["s2"], g["Rstar"]["d"] == 1, json.dumps(g["q"]))
 
 
 def run(rep: engine.Report, tier: str, seed: int):
